@@ -105,7 +105,21 @@ def gen_case(rng):
             j = rng.randrange(math.ceil(off / step), n + 2)
             end = max(j * step, off)  # ends on a step boundary: both readings of "overlap" coincide
             events.append({"kind": "sensor_time_bias", "off": off, "end": end, "sensor": rng.choice(S_IDS), "bias": rng.choice([0.5, 1.0, -0.5])})
-    # engine 2 keeps T4 and S3 whatever is removed, so a removal never empties an engine
+    # a manoeuvre of the satellite that joins by an event: in the step in which it joins (after the joining instant) or later
+    add_ev = next((e for e in events if e["kind"] == "target_addition"), None)
+    if add_ev is not None and rng.random() < 0.6:
+        k_add = int(math.ceil(add_ev["off"] / step))
+        room = k_add * step - add_ev["off"]           # seconds left in the joining step
+        r = rng.random()
+        if r < 0.5:
+            off = add_ev["off"] + (rng.randrange(0, room + 1) if room > 0 else 0)      # same step (incl. the joining instant and the step end)
+        elif r < 0.7 and k_add < n:
+            off = k_add * step + rng.choice([1, step // 2 or 1, step])                # the step after
+        else:
+            off = rng.randrange(add_ev["off"], n * step + 1)
+        off = min(max(off, add_ev["off"]), n * step)
+        events.append({"kind": "impulse", "off": off, "target": NEW_T, "frame": rng.choice(["eci", "ntw"]), "planned": rng.random() < 0.5,
+                       "dv": [rng.choice([-1, 1]) * rng.uniform(2e-3, 2e-2) for _ in range(3)]})
     if not events:
         events.append({"kind": "impulse", "off": base_off, "target": T_IDS[0], "frame": "eci", "planned": True, "dv": [0.01, -0.005, 0.004]})
     # a task priority for a target that gets removed would index a missing row: keep priorities on T3 only if T3 is never removed
@@ -433,10 +447,13 @@ def eval_case(ctx, case):
 
     # ---- impulses: number of physical applications and resulting trajectory -------------------
     X0 = _initial_states(case)
-    for tid in T_IDS[:2]:
+    for tid in T_IDS[:2] + (NEW_T,):
         imps = [e for e in events if e["kind"] == "impulse" and e["target"] == tid]
         if not imps:
             continue
+        if tid == NEW_T:
+            ctx.count("impulses_on_a_target_that_joined_by_event", len(imps))
+            ctx.count("impulses_in_the_joining_step", sum(1 for e in imps if any(z["kind"] == "target_addition" and kstar(z["off"]) == kstar(e["off"]) for z in events)))
         for e in imps:
             last = e["off"] == t_final  # applied within +-40us of the final epoch: either side is legitimate
             napp_truth = [a for a in log.applications if a[0] == "asyncPropagate" and a[1] == tid and abs(a[2] - e["off"]) < 1e-3]
@@ -451,6 +468,8 @@ def eval_case(ctx, case):
                           f"planned impulse at +{e['off']}s on target {tid} changed the estimate {len(napp_est)} time(s) (expected {want_est})", wit, mon="impulse_applied_once")
             else:
                 ctx.check(len(napp_truth) <= same_time, "impulse-applications-truth-final", f"impulse at the final epoch applied {len(napp_truth)} times", wit, mon="impulse_applied_once")
+        if tid == NEW_T:
+            continue  # joined during the run: deliveries and application counts decide (no reference trajectory from the epoch)
         if case.get("model", "two_body") != "two_body":
             continue  # perturbed truth: no closed form; the application counter above decides
         if len({e["off"] for e in imps}) != len(imps):
